@@ -11,7 +11,7 @@ pub use self::recursive_page_table::verif_table_pages;
 use crate::structures::paging::{
     frame_alloc::{FrameAllocator, FrameDeallocator},
     page::PageRangeInclusive,
-    page_table::PageTableFlags,
+    page_table::{self, PageTableFlags},
     Page, PageSize, PhysFrame, Size1GiB, Size2MiB, Size4KiB,
 };
 use crate::{PhysAddr, VirtAddr};
@@ -20,6 +20,15 @@ mod mapped_page_table;
 mod offset_page_table;
 #[cfg(all(feature = "instructions", target_arch = "x86_64"))]
 mod recursive_page_table;
+
+/// Returns the start address of the huge frame mapped by a huge-page entry.
+///
+/// Bit 12 of a level 3 or level 2 entry that maps a huge page is the PAT flag
+/// (`PageTableFlags::PAT_HUGE_PAGE`) and not part of the frame address.
+#[inline]
+fn huge_frame_addr(entry: &page_table::PageTableEntry) -> PhysAddr {
+    PhysAddr::new(entry.addr().as_u64() & !PageTableFlags::PAT_HUGE_PAGE.bits())
+}
 
 /// An empty convencience trait that requires the `Mapper` trait for all page sizes.
 pub trait MapperAllSizes: Mapper<Size4KiB> + Mapper<Size2MiB> + Mapper<Size1GiB> {}
